@@ -592,8 +592,17 @@ class PipeWorld(World):
             kwargs = {'interest_param': pobj}
         ev = self.log('express', id=iid, name=comps, cbp=op.get('cbp', False), lifetime=op.get('lifetime', 4000),
                       running=bool(self.face.running))
+        bufs = None
+        if op.get('name_buf'):
+            # the caller builds the name in buffers of its own and re-uses them once express() has returned
+            bufs = [bytearray(c) for c in comps]
+            comps = bufs if op['name_buf'] == 'bytearray' else [memoryview(x) for x in bufs]
         self.tok(f'E{iid}')
         ntx = len(self.tx)
+        if op.get('send_fails') and self.face_kind == 'direct' and self.face.running:
+            self.face.fail_next_send = OSError(105, 'No buffer space available')
+            self.stats['fault.send_fails'] += 1
+            ev['send_fails'] = True
         try:
             if op.get('app_param') is not None:
                 # parameterised, signed Interest: the name the Data must carry includes the parameters digest
@@ -607,6 +616,11 @@ class PipeWorld(World):
                 coro = self.app.express(comps, validator, **kwargs)
             else:
                 coro = self.app.express_interest(comps, validator=validator, **kwargs)
+            if bufs is not None:
+                for x in bufs:
+                    for i in range(2, len(x)):
+                        x[i] ^= 0x5a        # (type and length bytes stay: still a well-formed component, another value)
+                self.stats['fault.caller_reuses_name_buffer'] += 1
             if pobj is not None:
                 pobj.can_be_prefix = not pobj.can_be_prefix
                 pobj.must_be_fresh = not pobj.must_be_fresh
@@ -620,6 +634,7 @@ class PipeWorld(World):
                 except tlvref.TlvError:
                     pass
         except Exception as e:
+            self.face.fail_next_send = None
             self.log('done', id=iid, out='sync-raise', exc=type(e).__name__, where=innermost_ndn_frame(e),
                      msg=exc_brief(e))
             return
